@@ -10,8 +10,9 @@ package staticfiles
 //@ spec statOf(f http.File) os.FileInfo
 
 //@ extern invoke:(net/http.File).Stat
-//@   ensures result1 == nil ==> result0 == statOf(self)
+//@   ensures result1 == nil ==> (result0 == statOf(self) && result0 != nil)
 //@ func (FileServer).IsHidden
+//@   requires fs.Root != nil
 //@   pure
 //@ extern invoke:(io/fs.FileInfo).IsDir
 //@   pure
@@ -31,9 +32,12 @@ package staticfiles
 //@ extern (net/http.Header).Set
 
 //@ func calculateEtag
+//@   requires d != nil
 //@   pure
 //@ func (FileServer).serveFile
 //@   requires r != nil && r.URL != nil
+//@   // a file server has its root (the constructor of the site's file server sets it: httpserver's NewServer / staticfiles setup)
+//@   requires fs.Root != nil
 //@   at call net/http.ServeContent assert [sink_not_hidden] !fs.IsHidden(statOf(f))
 //@   at call net/http.ServeContent assert [sink_not_dir] !statOf(f).IsDir()
 //@   // C18: a precompressed sibling is only chosen in a coding the client offered, and is announced with its own size
